@@ -194,7 +194,7 @@ class Sequence(object):
                 # check for context closing tag
                 if element.context is not None:
                     tag = taglist.Pop()
-                    if tag.tagClass != Tag.closingTagClass or tag.tagNumber != element.context:
+                    if (not tag) or tag.tagClass != Tag.closingTagClass or tag.tagNumber != element.context:
                         raise InvalidTag("%s expected closing tag %d" % (element.name, element.context))
 
             # check for an any atomic element
@@ -1123,9 +1123,9 @@ class Choice(object):
         # peek at the element
         tag = taglist.Peek()
         if tag is None:
-            raise AttributeError("missing choice of %s" % (self.__class__.__name__,))
+            raise MissingRequiredParameter("missing choice of %s" % (self.__class__.__name__,))
         if tag.tagClass == Tag.closingTagClass:
-            raise AttributeError("missing choice of %s" % (self.__class__.__name__,))
+            raise MissingRequiredParameter("missing choice of %s" % (self.__class__.__name__,))
 
         # keep track of which one was found
         foundElement = {}
@@ -1153,7 +1153,7 @@ class Choice(object):
 
                 # check for context closing tag
                 tag = taglist.Pop()
-                if tag.tagClass != Tag.closingTagClass or tag.tagNumber != element.context:
+                if (not tag) or tag.tagClass != Tag.closingTagClass or tag.tagNumber != element.context:
                     raise InvalidTag("%s expected closing tag %d" % (element.name, element.context))
 
                 # done
@@ -1202,14 +1202,14 @@ class Choice(object):
 
                 # check for the correct closing tag
                 tag = taglist.Pop()
-                if tag.tagClass != Tag.closingTagClass or tag.tagNumber != element.context:
+                if (not tag) or tag.tagClass != Tag.closingTagClass or tag.tagNumber != element.context:
                     raise InvalidTag("%s expected closing tag %d" % (element.name, element.context))
 
                 # done
                 if _debug: Choice._debug("    - found choice (structure)")
                 break
         else:
-            raise AttributeError("missing choice of %s" % (self.__class__.__name__,))
+            raise InvalidTag("no choice of %s matches the tag" % (self.__class__.__name__,))
 
         # now save the value and None everywhere else
         for element in self.choiceElements:
